@@ -18,10 +18,60 @@ pub struct Args {
     pub instance: usize,
     pub max_len: usize,
     pub only: Option<Only>,
+    /// query pool = one training row + five extreme-but-finite rows (instead of the ordinary pool)
+    pub extreme: bool,
+}
+
+/// Catalogue of extreme-but-finite query rows (15 patterns; instance i uses patterns 5i .. 5i+4):
+/// coordinates +-1e3, +-1e6, +-1e30, f32::MAX / 2, +-1e-30, zero, mixed magnitudes, and a training
+/// row with one coordinate replaced.
+pub(crate) fn extreme_pattern(k: usize, base: &[f64]) -> Vec<f64> {
+    let p = base.len();
+    let alt = |j: usize| if j % 2 == 0 { 1.0 } else { -1.0 };
+    let big32 = (f32::MAX / 2.0) as f64;
+    let cyc = [1e30, 1e-30, -1e6, 1e3];
+    match k % 15 {
+        0 => vec![1e6; p],
+        1 => (0..p).map(|j| alt(j) * 1e6).collect(),
+        2 => vec![-1e30; p],
+        3 => (0..p).map(|j| alt(j) * 1e30).collect(),
+        4 => (0..p).map(|j| if j == 0 { big32 } else { 0.0 }).collect(),
+        5 => vec![1e-30; p],
+        6 => (0..p).map(|j| cyc[j % 4]).collect(),
+        7 => vec![-1e3; p],
+        8 => (0..p).map(|j| if j == 0 { 1e6 } else { base[j] }).collect(),
+        9 => (0..p).map(|j| if j == p - 1 { -1e30 } else { base[j] }).collect(),
+        10 => vec![1e30; p],
+        11 => (0..p).map(|j| alt(j) * big32).collect(),
+        12 => vec![0.0; p],
+        13 => (0..p).map(|j| alt(j) * -1e-30).collect(),
+        _ => (0..p).map(|j| cyc[3 - j % 4]).collect(),
+    }
+}
+
+impl Args {
+    /// the ordinary pool, or (extreme mode) a training row followed by five catalogue rows
+    pub fn pool(&self, x: &Array2<f64>, extreme_row: Vec<f64>) -> Vec<Vec<f64>> {
+        if !self.extreme {
+            return pool_from(x, extreme_row);
+        }
+        let base = x.row(0).to_vec();
+        let mut v = vec![base.clone()];
+        for k in 0..5 {
+            v.push(extreme_pattern(5 * (self.instance % 3) + k, &base));
+        }
+        v
+    }
+    /// same for predictors whose domain is non-negative records
+    pub fn pool_nonneg(&self, x: &Array2<f64>, extreme_row: Vec<f64>) -> Vec<Vec<f64>> {
+        self.pool(x, extreme_row).into_iter().map(|r| r.into_iter().map(f64::abs).collect()).collect()
+    }
 }
 
 pub struct Entry {
     pub name: &'static str,
+    /// the entry also runs with the extreme query pool
+    pub extreme_ok: bool,
     pub run: fn(&Args, &mut Rep) -> Result<(), String>,
 }
 
@@ -102,7 +152,9 @@ fn mat_scale<'s>(w: Array2<f64>, b: Vec<f64>) -> Box<dyn Fn(&[f64], usize, f64) 
 }
 
 fn spec<'s>(kind: &'static str, a: &Args, pool: &'s [Vec<f64>]) -> Spec<'s> {
-    Spec::new(kind, a.instance, a.max_len, pool)
+    let mut sp = Spec::new(kind, a.instance, a.max_len, pool);
+    sp.extreme = a.extreme;
+    sp
 }
 
 // ============================ clustering ============================
@@ -111,7 +163,7 @@ fn kmeans(a: &Args, rep: &mut Rep) -> Result<(), String> {
     let k = [3, 4, 2][a.instance % 3];
     let (x, _) = blobs(60, 3, k, 101 + a.instance as u64);
     let m = KMeans::params_with_rng(k, rng(7)).n_runs(2).max_n_iterations(20).fit(&Dataset::from(x.clone())).map_err(e)?;
-    let pool = pool_from(&x, extreme(3));
+    let pool = a.pool(&x, extreme(3));
     let store = build_store(&pool, a.max_len, &a.only);
     let cent = m.centroids().clone();
     let mut sp = spec("kmeans", a, &pool);
@@ -131,7 +183,7 @@ fn gmm(a: &Args, rep: &mut Rep) -> Result<(), String> {
     let k = [3, 2, 2][a.instance % 3];
     let (x, _) = blobs(150, 2, k, 111 + a.instance as u64);
     let m = GaussianMixtureModel::params_with_rng(k, rng(5)).n_runs(2).tolerance(1e-4).fit(&Dataset::from(x.clone())).map_err(e)?;
-    let pool = pool_from(&x, extreme(2));
+    let pool = a.pool(&x, extreme(2));
     let store = build_store(&pool, a.max_len, &a.only);
     let sp = spec("gmm", a, &pool);
     sweep::<Array1<usize>, _, _>(&sp, &m, Some(&m), &store, None, rep);
@@ -145,7 +197,7 @@ fn ols(a: &Args, rep: &mut Rep) -> Result<(), String> {
     let (x, y) = regression(80, p, 1, 121 + a.instance as u64);
     let ds = Dataset::new(x.clone(), y.column(0).to_owned());
     let m = LinearRegression::new().with_intercept(a.instance != 1).fit(&ds).map_err(e)?;
-    let pool = pool_from(&x, extreme(p));
+    let pool = a.pool(&x, extreme(p));
     let store = build_store(&pool, a.max_len, &a.only);
     let mut sp = spec("ols", a, &pool);
     sp.scale = lin_scale(m.params().to_vec(), m.intercept());
@@ -168,12 +220,14 @@ fn isotonic(a: &Args, rep: &mut Rep) -> Result<(), String> {
     let ds = Dataset::new(x.clone(), yv);
     let m = IsotonicRegression::new().fit(&ds).map_err(e)?;
     // pool: training rows from the lower, middle and upper part, an interpolated off-data point, an extreme
-    let mut pool = pool_from(&x, vec![if a.instance % 2 == 0 { 1e6 } else { -1e6 }]);
-    pool[0] = x.row(7).to_vec();
-    pool[1] = x.row(45).to_vec();
-    pool[2] = x.row(7).to_vec();
-    pool[3] = vec![0.5 * (x[(20, 0)] + x[(21, 0)]) + 0.013];
-    pool[5] = x.row(30).to_vec();
+    let mut pool = a.pool(&x, vec![if a.instance % 2 == 0 { 1e6 } else { -1e6 }]);
+    if !a.extreme {
+        pool[0] = x.row(7).to_vec();
+        pool[1] = x.row(45).to_vec();
+        pool[2] = x.row(7).to_vec();
+        pool[3] = vec![0.5 * (x[(20, 0)] + x[(21, 0)]) + 0.013];
+        pool[5] = x.row(30).to_vec();
+    }
     let store = build_store(&pool, a.max_len, &a.only);
     let sp = spec("isotonic", a, &pool);
     sweep::<Array1<f64>, _, _>(&sp, &m, Some(&m), &store, None, rep);
@@ -188,7 +242,7 @@ fn tweedie(a: &Args, rep: &mut Rep) -> Result<(), String> {
     let power = [1.0, 0.0, 2.0][a.instance % 3];
     let m = TweedieRegressor::params().power(power).alpha(0.1).fit(&ds).map_err(e)?;
     // moderately extreme row: the log link must stay finite
-    let pool = pool_from(&x, vec![40.0, -55.0]);
+    let pool = a.pool(&x, vec![40.0, -55.0]);
     let store = build_store(&pool, a.max_len, &a.only);
     let mut sp = spec("tweedie", a, &pool);
     let (w, b) = (m.coef.to_vec(), m.intercept);
@@ -207,7 +261,7 @@ fn elasticnet(a: &Args, rep: &mut Rep) -> Result<(), String> {
     let (x, y) = regression(80, p, 1, 151 + a.instance as u64);
     let ds = Dataset::new(x.clone(), y.column(0).to_owned());
     let m = ElasticNet::params().penalty(0.1).l1_ratio([0.5, 1.0, 0.0][a.instance % 3]).fit(&ds).map_err(e)?;
-    let pool = pool_from(&x, extreme(p));
+    let pool = a.pool(&x, extreme(p));
     let store = build_store(&pool, a.max_len, &a.only);
     let mut sp = spec("elasticnet", a, &pool);
     sp.scale = lin_scale(m.hyperplane().to_vec(), m.intercept());
@@ -221,7 +275,7 @@ fn multitask_elasticnet(a: &Args, rep: &mut Rep) -> Result<(), String> {
     let (x, y) = regression(80, 4, t, 161 + a.instance as u64);
     let ds = Dataset::new(x.clone(), y);
     let m = MultiTaskElasticNet::params().penalty(0.1).l1_ratio(0.5).fit(&ds).map_err(e)?;
-    let pool = pool_from(&x, extreme(4));
+    let pool = a.pool(&x, extreme(4));
     let store = build_store(&pool, a.max_len, &a.only);
     let mut sp = spec("multitask_elasticnet", a, &pool);
     sp.scale = mat_scale(m.hyperplane().clone(), m.intercept().to_vec());
@@ -234,7 +288,7 @@ where
     M: for<'v> PredictInplace<ArrayView2<'v, f64>, Array2<f64>> + PredictInplace<Array2<f64>, Array2<f64>>,
 {
     let p = x.ncols();
-    let pool = pool_from(x, extreme(p));
+    let pool = a.pool(x, extreme(p));
     let store = build_store(&pool, a.max_len, &a.only);
     let mut sp = spec(kind, a, &pool);
     // out_c = sum_j ((x_j - mean_j) / std_j) C_jc + ymean_c ; mean / std of the training records
@@ -280,7 +334,7 @@ fn logistic_binary(a: &Args, rep: &mut Rep) -> Result<(), String> {
     let (x, y) = blobs(120, p, 2, 201 + a.instance as u64);
     let ds = Dataset::new(x.clone(), y.mapv(|c| c == 1));
     let m = LogisticRegression::default().alpha(0.5).max_iterations(200).fit(&ds).map_err(e)?;
-    let pool = pool_from(&x, extreme(p));
+    let pool = a.pool(&x, extreme(p));
     let store = build_store(&pool, a.max_len, &a.only);
     let mut sp = spec("logistic_binary", a, &pool);
     let (w, b) = (m.params().to_vec(), m.intercept());
@@ -300,7 +354,7 @@ fn logistic_multinomial(a: &Args, rep: &mut Rep) -> Result<(), String> {
     let names = ["cat", "dog", "ant"];
     let ds = Dataset::new(x.clone(), y.mapv(|c| names[c].to_string()));
     let m = MultiLogisticRegression::default().alpha(0.5).max_iterations(200).fit(&ds).map_err(e)?;
-    let pool = pool_from(&x, extreme(p));
+    let pool = a.pool(&x, extreme(p));
     let store = build_store(&pool, a.max_len, &a.only);
     let mut sp = spec("logistic_multinomial", a, &pool);
     let (w, b) = (m.params().clone(), m.intercept().to_vec());
@@ -331,7 +385,7 @@ fn svm_c_bool_gaussian(a: &Args, rep: &mut Rep) -> Result<(), String> {
     let (x, y) = blobs(80, 2, 2, 221 + a.instance as u64);
     let ds = Dataset::new(x.clone(), y.mapv(|c| c == 1));
     let m = Svm::<f64, bool>::params().gaussian_kernel(2.0).pos_neg_weights(1.0, 2.0).fit(&ds).map_err(e)?;
-    let pool = pool_from(&x, extreme(2));
+    let pool = a.pool(&x, extreme(2));
     let store = build_store(&pool, a.max_len, &a.only);
     let mut sp = spec("svm_c_bool_gaussian", a, &pool);
     sp.margin = Some(svm_margin(&m));
@@ -350,7 +404,7 @@ fn svm_bool_linear_poly(a: &Args, rep: &mut Rep) -> Result<(), String> {
     } else {
         Svm::<f64, bool>::params().linear_kernel().pos_neg_weights(1.0, 1.0).fit(&ds).map_err(e)?
     };
-    let pool = pool_from(&x, extreme(p));
+    let pool = a.pool(&x, extreme(p));
     let store = build_store(&pool, a.max_len, &a.only);
     let mut sp = spec("svm_bool_linear_poly", a, &pool);
     sp.margin = Some(svm_margin(&m));
@@ -368,10 +422,11 @@ fn svm_probability(a: &Args, rep: &mut Rep) -> Result<(), String> {
     } else {
         Svm::<f64, Pr>::params().polynomial_kernel(1.0, 2.0).fit(&ds).map_err(e)?
     };
-    let pool = pool_from(&x, if a.instance % 2 == 0 { extreme(2) } else { vec![25.0, -31.0] });
+    let pool = a.pool(&x, if a.instance % 2 == 0 { extreme(2) } else { vec![25.0, -31.0] });
     let store = build_store(&pool, a.max_len, &a.only);
     let mut sp = spec("svm_probability", a, &pool);
     sp.eps = f32::EPSILON as f64;
+    sp.unit_interval = true;
     sp.scale = Box::new(|_, _, _| 1.0);
     sp.row_form = Some(Box::new(|v| Cell::F(*Predict::<ArrayView1<f64>, Pr>::predict(&m, v) as f64)));
     sweep::<Array1<Pr>, _, _>(&sp, &m, Some(&m), &store, None, rep);
@@ -384,7 +439,7 @@ fn svm_regression_linear(a: &Args, rep: &mut Rep) -> Result<(), String> {
     let (x, y) = regression(if p > 4 { 30 } else { 60 }, p, 1, 251 + a.instance as u64);
     let ds = Dataset::new(x.clone(), y.column(0).to_owned());
     let m = Svm::<f64, f64>::params().c_svr(if p > 4 { 0.1 } else { 1.0 }, Some(if p > 4 { 0.5 } else { 0.1 })).linear_kernel().fit(&ds).map_err(e)?;
-    let pool = pool_from(&x, extreme(p));
+    let pool = a.pool(&x, extreme(p));
     let store = build_store(&pool, a.max_len, &a.only);
     let mut sp = spec("svm_regression_linear", a, &pool);
     // w is not exposed; |w_j| <= sum_i |alpha_i| max|x_ij| ; use the weighted sum's own magnitude plus rho,
@@ -409,7 +464,7 @@ fn svm_regression_gaussian(a: &Args, rep: &mut Rep) -> Result<(), String> {
     let (x, y) = regression(60, 2, 1, 261 + a.instance as u64);
     let ds = Dataset::new(x.clone(), y.column(0).to_owned());
     let m = Svm::<f64, f64>::params().nu_svr(0.5, Some(1.0)).gaussian_kernel(5.0).fit(&ds).map_err(e)?;
-    let pool = pool_from(&x, extreme(2));
+    let pool = a.pool(&x, extreme(2));
     let store = build_store(&pool, a.max_len, &a.only);
     let mut sp = spec("svm_regression_gaussian", a, &pool);
     // sum_i alpha_i k(x_i, s) - rho ; the kernel sums (x - y)^2 sequentially whatever the layout
@@ -426,7 +481,7 @@ fn svm_one_class(a: &Args, rep: &mut Rep) -> Result<(), String> {
     let (x, _) = blobs(60, 2, 1, 271 + a.instance as u64);
     let ds = Dataset::new(x.clone(), Array1::from_elem(60, ()));
     let m = Svm::<f64, Pr>::params().gaussian_kernel(3.0).nu_weight(0.2).fit(&ds).map_err(e)?;
-    let pool = pool_from(&x, extreme(2));
+    let pool = a.pool(&x, extreme(2));
     let store = build_store(&pool, a.max_len, &a.only);
     let mut sp = spec("svm_one_class", a, &pool);
     sp.margin = Some(svm_margin(&m));
@@ -440,7 +495,7 @@ fn decision_tree(a: &Args, rep: &mut Rep) -> Result<(), String> {
     let (x, y) = blobs(150, 3, 3, 281 + a.instance as u64);
     let ds = Dataset::new(x.clone(), y);
     let m = DecisionTree::params().max_depth(Some([4, 2, 8][a.instance % 3])).fit(&ds).map_err(e)?;
-    let pool = pool_from(&x, extreme(3));
+    let pool = a.pool(&x, extreme(3));
     let store = build_store(&pool, a.max_len, &a.only);
     let sp = spec("decision_tree", a, &pool);
     sweep::<Array1<usize>, _, _>(&sp, &m, Some(&m), &store, None, rep);
@@ -452,7 +507,7 @@ fn gaussian_nb(a: &Args, rep: &mut Rep) -> Result<(), String> {
     let (x, y) = blobs(150, 3, 3, 291 + a.instance as u64);
     let ds = Dataset::new(x.clone(), y);
     let m = GaussianNb::params().fit(&ds).map_err(e)?;
-    let pool = pool_from(&x, extreme(3));
+    let pool = a.pool(&x, extreme(3));
     let store = build_store(&pool, a.max_len, &a.only);
     let sp = spec("gaussian_nb", a, &pool);
     sweep::<Array1<usize>, _, _>(&sp, &m, Some(&m), &store, None, rep);
@@ -475,7 +530,7 @@ fn multinomial_nb(a: &Args, rep: &mut Rep) -> Result<(), String> {
     }
     let ds = Dataset::new(x.clone(), y);
     let m = MultinomialNb::params().fit(&ds).map_err(e)?;
-    let pool = pool_from(&x, vec![1000.0, 0.0, 500.0]);
+    let pool = a.pool_nonneg(&x, vec![1000.0, 0.0, 500.0]);
     let store = build_store(&pool, a.max_len, &a.only);
     let sp = spec("multinomial_nb", a, &pool);
     sweep::<Array1<usize>, _, _>(&sp, &m, Some(&m), &store, None, rep);
@@ -490,10 +545,11 @@ fn ftrl(a: &Args, rep: &mut Rep) -> Result<(), String> {
     let params = Ftrl::params_with_rng(rng(3)).alpha(0.1).beta(1.0).l1_ratio(0.2).l2_ratio(0.3);
     let mut m = params.fit_with(None, &ds).map_err(e)?;
     m = params.fit_with(Some(m), &ds).map_err(e)?;
-    let pool = pool_from(&x, extreme(p));
+    let pool = a.pool(&x, extreme(p));
     let store = build_store(&pool, a.max_len, &a.only);
     let mut sp = spec("ftrl", a, &pool);
     sp.eps = f32::EPSILON as f64;
+    sp.unit_interval = true;
     sp.scale = Box::new(|_, _, _| 1.0);
     sweep::<Array1<Pr>, _, _>(&sp, &m, Some(&m), &store, None, rep);
     Ok(())
@@ -505,7 +561,7 @@ fn pca(a: &Args, rep: &mut Rep) -> Result<(), String> {
     let p = [9, 4, 9][a.instance % 3];
     let (x, _) = blobs(120, p, 3, 321 + a.instance as u64);
     let m = Pca::params(3).whiten(a.instance % 3 == 2).fit(&Dataset::from(x.clone())).map_err(e)?;
-    let pool = pool_from(&x, extreme(p));
+    let pool = a.pool(&x, extreme(p));
     let store = build_store(&pool, a.max_len, &a.only);
     let mut sp = spec("pca", a, &pool);
     let (comp, mean) = (m.components().clone(), m.mean().to_vec());
@@ -518,7 +574,7 @@ fn fast_ica(a: &Args, rep: &mut Rep) -> Result<(), String> {
     use linfa_ica::fast_ica::{FastIca, GFunc};
     let (x, _) = blobs(200, 3, 2, 331 + a.instance as u64);
     let m = FastIca::params().ncomponents(2).gfunc(GFunc::Logcosh(1.0)).random_state(10).fit(&Dataset::from(x.clone())).map_err(e)?;
-    let pool = pool_from(&x, extreme(3));
+    let pool = a.pool(&x, extreme(3));
     let store = build_store(&pool, a.max_len, &a.only);
     let mut sp = spec("fast_ica", a, &pool);
     // the unmixing matrix is not exposed: probe it (out(e_j) - out(0)); only used as operand magnitude
@@ -545,7 +601,7 @@ fn multi_target_model(a: &Args, rep: &mut Rep) -> Result<(), String> {
     use linfa_linear::LinearRegression;
     use linfa_svm::Svm;
     let (x, y) = regression(60, 3, 3, 341 + a.instance as u64);
-    let pool = pool_from(&x, extreme(3));
+    let pool = a.pool(&x, extreme(3));
     let store = build_store(&pool, a.max_len, &a.only);
     let col = |c: usize| Dataset::new(x.clone(), y.column(c).to_owned());
     let ols = LinearRegression::new().fit(&col(0)).map_err(e)?;
@@ -628,11 +684,21 @@ fn multi_class_model(a: &Args, rep: &mut Rep) -> Result<(), String> {
         let twin = members[0].1.clone();
         members.push((40, twin));
     }
-    let pool = pool_from(&x, extreme(2));
+    multi_class_run("multi_class_model", a, rep, &x, members, false)
+}
+
+fn multi_class_run(kind: &'static str, a: &Args, rep: &mut Rep, x: &Array2<f64>, members: Vec<(usize, linfa_svm::Svm<f64, Pr>)>, via_new: bool) -> Result<(), String> {
+    let pool = a.pool(x, extreme(2));
     let store = build_store(&pool, a.max_len, &a.only);
-    let mo: MultiClassModel<Array2<f64>, usize> = members.clone().into_iter().collect();
-    let mv: MultiClassModel<ArrayView2<f64>, usize> = members.clone().into_iter().collect();
-    let sp = spec("multi_class_model", a, &pool);
+    let (mo, mv): (MultiClassModel<Array2<f64>, usize>, MultiClassModel<ArrayView2<f64>, usize>) = if via_new {
+        (
+            MultiClassModel::new(members.iter().cloned().map(|(l, m)| (l, Box::new(m) as Box<dyn PredictInplace<Array2<f64>, Array1<Pr>>>)).collect()),
+            MultiClassModel::new(members.iter().cloned().map(|(l, m)| (l, Box::new(m) as Box<dyn PredictInplace<ArrayView2<f64>, Array1<Pr>>>)).collect()),
+        )
+    } else {
+        (members.clone().into_iter().collect(), members.clone().into_iter().collect())
+    };
+    let sp = spec(kind, a, &pool);
     let counters: RefCell<BTreeMap<&'static str, u64>> = RefCell::new(BTreeMap::new());
     let hook = |xb: &Array2<f64>, out: &Array1<usize>| -> Vec<(String, String)> {
         let probs: Vec<Array1<Pr>> = members.iter().map(|(_, m)| m.predict(xb)).collect();
@@ -660,6 +726,73 @@ fn multi_class_model(a: &Args, rep: &mut Rep) -> Result<(), String> {
         v
     };
     sweep::<Array1<usize>, _, _>(&sp, &mo, Some(&mv), &store, Some(&hook), rep);
+    for (k, v) in counters.borrow().iter() {
+        rep.bump(k, *v);
+    }
+    Ok(())
+}
+
+/// MultiClassModel with ONE and with TWO member models (the smallest wrappers)
+fn multi_class_model_few_members(a: &Args, rep: &mut Rep) -> Result<(), String> {
+    use linfa_svm::Svm;
+    let (x, y) = blobs(90, 2, 3, 951 + a.instance as u64);
+    let ds = Dataset::new(x.clone(), y.mapv(|c| 10 * (c + 1)));
+    let params = Svm::<f64, Pr>::params().gaussian_kernel(3.0);
+    let mut members: Vec<(usize, Svm<f64, Pr>)> = Vec::new();
+    for (l, d) in ds.one_vs_all().map_err(e)? {
+        members.push((l, params.fit(&d).map_err(e)?));
+    }
+    members.sort_by_key(|m| m.0);
+    // instance 0: one member (FromIterator), instance 1: two members, instance 2: one member (the last) through `new`
+    let members = match a.instance % 3 {
+        0 => members[..1].to_vec(),
+        1 => members[..2].to_vec(),
+        _ => members[2..].to_vec(),
+    };
+    rep.bump(&format!("multi_class_wrappers_with_{}_member", members.len()), 1);
+    multi_class_run("multi_class_model_few_members", a, rep, &x, members, a.instance % 3 == 2)
+}
+
+/// MultiTargetModel built from exactly ONE member model: the output must still be (n, 1)
+fn multi_target_model_single_member(a: &Args, rep: &mut Rep) -> Result<(), String> {
+    use linfa_elasticnet::ElasticNet;
+    use linfa_linear::LinearRegression;
+    use linfa_svm::Svm;
+    let (x, y) = regression(60, 3, 1, 961 + a.instance as u64);
+    let pool = a.pool(&x, extreme(3));
+    let store = build_store(&pool, a.max_len, &a.only);
+    let ds = Dataset::new(x.clone(), y.column(0).to_owned());
+    let mut sp = spec("multi_target_model_single_member", a, &pool);
+    let counters: RefCell<BTreeMap<&'static str, u64>> = RefCell::new(BTreeMap::new());
+    rep.bump("multi_target_wrappers_with_1_member", 1);
+    match a.instance % 3 {
+        0 => {
+            let m = LinearRegression::new().fit(&ds).map_err(e)?;
+            sp.scale = lin_scale(m.params().to_vec(), m.intercept());
+            let mo: MultiTargetModel<Array2<f64>, f64> = MultiTargetModel::new(vec![Box::new(m.clone())]);
+            let mv: MultiTargetModel<ArrayView2<f64>, f64> = MultiTargetModel::new(vec![Box::new(m.clone())]);
+            let hook = |xb: &Array2<f64>, out: &Array2<f64>| member_columns(&[m.predict(xb)], out, &counters);
+            sweep::<Array2<f64>, _, _>(&sp, &mo, Some(&mv), &store, Some(&hook), rep);
+        }
+        1 => {
+            let m = ElasticNet::params().penalty(0.2).l1_ratio(0.5).fit(&ds).map_err(e)?;
+            sp.scale = lin_scale(m.hyperplane().to_vec(), m.intercept());
+            let mo: MultiTargetModel<Array2<f64>, f64> = vec![m.clone()].into_iter().collect();
+            let mv: MultiTargetModel<ArrayView2<f64>, f64> = vec![m.clone()].into_iter().collect();
+            let hook = |xb: &Array2<f64>, out: &Array2<f64>| member_columns(&[m.predict(xb)], out, &counters);
+            sweep::<Array2<f64>, _, _>(&sp, &mo, Some(&mv), &store, Some(&hook), rep);
+        }
+        _ => {
+            let m = Svm::<f64, f64>::params().c_svr(1.0, Some(0.1)).gaussian_kernel(8.0).fit(&ds).map_err(e)?;
+            let asum: f64 = m.alpha.iter().map(|v| v.abs()).sum();
+            let rho = m.rho;
+            sp.scale = Box::new(move |_row, _c, o| asum + rho.abs() + o.abs());
+            let mo: MultiTargetModel<Array2<f64>, f64> = MultiTargetModel::new(vec![Box::new(m.clone())]);
+            let mv: MultiTargetModel<ArrayView2<f64>, f64> = MultiTargetModel::new(vec![Box::new(m.clone())]);
+            let hook = |xb: &Array2<f64>, out: &Array2<f64>| member_columns(&[m.predict(xb)], out, &counters);
+            sweep::<Array2<f64>, _, _>(&sp, &mo, Some(&mv), &store, Some(&hook), rep);
+        }
+    }
     for (k, v) in counters.borrow().iter() {
         rep.bump(k, *v);
     }
@@ -708,6 +841,7 @@ where
     let store = build_store(&pool, a.max_len, &a.only);
     let mut sp = spec(kind, a, &pool);
     sp.eps = f32::EPSILON as f64;
+    sp.unit_interval = true;
     sp.scale = Box::new(|_, _, _| 1.0);
     let counters: RefCell<BTreeMap<&'static str, u64>> = RefCell::new(BTreeMap::new());
     let hook = |xb: &Array2<f64>, out: &Array1<Pr>| -> Vec<(String, String)> {
@@ -768,9 +902,11 @@ fn platt_linear_scorer(a: &Args, rep: &mut Rep) -> Result<(), String> {
     let (x, y) = blobs(80, 2, 2, 361 + a.instance as u64);
     // a noisy score: the calibration stays finite
     let inner = LinearScorer { w: vec![[0.4, -0.3, 0.05][a.instance % 3], 0.25], c: -0.1 };
-    let mut pool = pool_from(&x, vec![30.0, -20.0]);
+    let mut pool = a.pool(&x, vec![30.0, -20.0]);
     // more distinct decision values around the steep part of the sigmoid
-    pool[5] = vec![0.5, 0.25];
+    if !a.extreme {
+        pool[5] = vec![0.5, 0.25];
+    }
     platt_run("platt_linear_scorer", a, rep, &x, y.mapv(|c| c == 1), inner, pool)
 }
 
@@ -779,7 +915,7 @@ fn platt_svm(a: &Args, rep: &mut Rep) -> Result<(), String> {
     let (x, y) = blobs(80, 2, 2, 371 + a.instance as u64);
     let reg = Dataset::new(x.clone(), y.mapv(|c| if c == 1 { 1.0 } else { -1.0 }));
     let inner = Svm::<f64, f64>::params().c_svr(1.0, Some(0.1)).gaussian_kernel([2.0, 6.0, 0.7][a.instance % 3]).fit(&reg).map_err(e)?;
-    let pool = pool_from(&x, extreme(2));
+    let pool = a.pool(&x, extreme(2));
     platt_run("platt_svm", a, rep, &x, y.mapv(|c| c == 1), inner, pool)
 }
 
@@ -946,16 +1082,20 @@ fn decision_tree_row_on_split_threshold(a: &Args, rep: &mut Rep) -> Result<(), S
 
 pub fn registry() -> Vec<Entry> {
     macro_rules! ent {
-        ($($f:ident),* $(,)?) => { vec![$(Entry { name: stringify!($f), run: $f }),*] };
+        ($x:expr; $($f:ident),* $(,)?) => { vec![$(Entry { name: stringify!($f), extreme_ok: $x, run: $f }),*] };
     }
-    ent![
+    let mut v = ent![true;
         kmeans, gmm, ols, isotonic, tweedie, elasticnet, multitask_elasticnet,
         pls_regression, pls_canonical, pls_cca,
         logistic_binary, logistic_multinomial,
         svm_c_bool_gaussian, svm_bool_linear_poly, svm_probability, svm_regression_linear, svm_regression_gaussian, svm_one_class,
         decision_tree, gaussian_nb, multinomial_nb, ftrl, pca, fast_ica,
         multi_target_model, multi_class_model, platt_linear_scorer, platt_svm,
+        multi_target_model_single_member, multi_class_model_few_members,
+    ];
+    v.extend(ent![false;
         svm_bool_linear_on_hyperplane, svm_one_class_on_boundary, logistic_binary_threshold_on_row, kmeans_equidistant_row,
         decision_tree_row_on_split_threshold,
-    ]
+    ]);
+    v
 }
